@@ -241,7 +241,7 @@ def flowInput (ts : List String) : Option FlowCase :=
     if m == "eof" then some ⟨m, ⟨pre, []⟩⟩
     else if m == "err" || m == "close" then some ⟨m, ⟨pre ++ [{ data := [], err := some .fatal }], []⟩⟩
     else if m == "werr" then
-      some ⟨m, ⟨List.replicate k d, List.replicate (k - 1) ⟨c, false⟩ ++ [⟨0, true⟩]⟩⟩
+      some ⟨m, ⟨List.replicate k d, List.replicate (k - 1) { accept := c, err := false } ++ [{ accept := 0, err := true }]⟩⟩
     else if m == "ctx" then
       some ⟨m, ⟨pre ++ [{ d with cancelled := true }] ++
         List.replicate (Gen.cloudconst.ContextCheckInterval + 5) d, []⟩⟩
@@ -256,6 +256,39 @@ def flowParse (ts : List String) : Option FObs :=
   | ["del", a, "cnt", b, _, c, d, "upd", _, "leak", g] =>
     match natList [a, b, c, d, g] with
     | some [a, b, c, d, g] => some ⟨a, b, c, d, g⟩
+    | _ => none
+  | _ => none
+
+/-! ### tst -/
+
+/-- `closer@gate` tokens ↦ gate per closer (thread ids 1…k in case order). -/
+def tstInput (ts : List String) : Option (List Nat) :=
+  match natAfter "cl" ts with
+  | some k =>
+    let cl := ((after "cl" ts).drop 1).take k
+    if cl.length = k ∧ k ≥ 1 then
+      cl.mapM fun c => match c.splitOn "@" with
+        | [_, g] => g.toNat?
+        | _ => none
+    else none
+  | none => none
+
+/-- The forced schedule: closers of gate 0; Start parked before `manager.Ctx()`; closers of gate 1;
+Start's `manager.Ctx()`, `SetCtx`, CAS; closers of gate 2; Start's spawn; closers of gate 3. -/
+def tstSched (gates : List Nat) : Schedule :=
+  let ids : Nat → List Nat := fun g => ((List.range gates.length).filter fun i => gates[i]? == some g).map (· + 1)
+  let grp : Nat → List Nat := fun g => (List.replicate 8 (ids g)).flatten
+  grp 0 ++ grp 1 ++ [0, 0, 0] ++ grp 2 ++ [0] ++ grp 3
+
+def tstShow (o : UObs) : String :=
+  s!"state {o.state} closes {o.closes} start {if o.startOk then "ok" else "err"} live {o.live} ctx {if o.ctxDone then 1 else 0} isclosed {if o.isClosed then 1 else 0}"
+
+def tstParse (ts : List String) : Option UObs :=
+  match ts with
+  | ["state", a, "closes", b, "start", st, "live", c, "ctx", d, "isclosed", e] =>
+    match natList [a, b, c, d, e] with
+    | some [a, b, c, d, e] =>
+      if st == "ok" || st == "err" then some ⟨a, b, st == "ok", c, d == 1, e == 1⟩ else none
     | _ => none
   | _ => none
 
@@ -293,6 +326,10 @@ def runModel (ts : List String) : String :=
       let rep := flowReportOf st.counter (lcgSched ms 2 6)
       flowShow f.mode (fObsOf st rep) rep.updates
     | _, _ => "bad-case"
+  | "tst" :: _ =>
+    match tstInput ts with
+    | some gates => tstShow (uObs (uFinal .setCtxFirst gates.length (tstSched gates)))
+    | none => "bad-case"
   | "mgr" :: _ =>
     -- two clean handlers: ResourceBase.onClose and the component's own onClose
     match mgrInput ts with
@@ -326,6 +363,10 @@ def runHolds (caseToks obsToks : List String) : String :=
   | "flow" :: _ =>
     match flowInput caseToks, flowParse obsToks with
     | some f, some o => holdsF (f.mode == "close") o
+    | _, _ => false
+  | "tst" :: _ =>
+    match tstInput caseToks, tstParse obsToks with
+    | some _, some o => holdsU o
     | _, _ => false
   | "mgr" :: _ =>
     match mgrInput caseToks, mgrParse obsToks with
